@@ -37,6 +37,7 @@ macro("DemeOk", ["t", "l", "i", "d"], """
     and d._problem._inner == t.config.levels[l].problem and inner(d._problem) == inner(t.config.levels[l].problem)
     and imp(d._active, not field(d, "$engine_stop", "bool"))
     and imp(d._active, len(cur_pop(d)) >= 1 and kind(cur_pop(d)) != 10)
+    and imp(d._active, ClassInv(d))
 """)
 macro("S_deme", ["t"], """
     forall(lambda l, i: imp(0 <= l < len(t._levels) and 0 <= i < len(t._levels[l]), DemeOk(t, l, i, t._levels[l][i])),
@@ -105,7 +106,7 @@ macro("DemeFresh", ["r", "cfg", "id_", "level", "started", "seed"], """
     and r._config == cfg and r._lsc == cfg.lsc and r._active and not r._hibernating and not field(r, "$engine_stop", "bool")
     and r._children != None and fresh(r._children) and len(r._children) == 0 and kind(r._children) == 2 and owner(r._children) == r
     and r._history != None and fresh(r._history) and kind(r._history) == 3 and owner(r._history) == r and len(r._history) == 1
-    and HistShape(r) and is_none(r._centroid) and len(cur_pop(r)) >= 1 and kind(cur_pop(r)) != 10
+    and HistShape(r) and is_none(r._centroid) and len(cur_pop(r)) >= 1 and kind(cur_pop(r)) != 10 and ClassInv(r)
     and r._problem != None and fresh(r._problem) and r._problem._inner == cfg.problem and r._problem._n_evals >= 0
     and wowner(r._problem) == r and inner(r._problem) == inner(cfg.problem)
 """)
